@@ -304,6 +304,29 @@ func driver(seed uint64, n int, outV, outJSON string, _ []string) {
 			if snap.Cur != snap.Res+sum || snap.Cur > max || snap.Res < 0 || snap.NumItems != len(snap.Order) {
 				failed(fmt.Sprintf("C03/C07: accounting diverged: total=%d reserved=%d entries=%d max=%d items=%d/%d", snap.Cur, snap.Res, sum, max, snap.NumItems, len(snap.Order)))
 			}
+			// C17 oracle: files that were evicted or replaced but are still on disk must be counted as
+			// queued for deletion (checked when no request is in flight, so no temp file is around)
+			allDone := true
+			for _, q := range reqs {
+				if !q.done {
+					allDone = false
+				}
+			}
+			if allDone {
+				var onDisk, indexed int64
+				_ = filepath.Walk(realDir, func(p string, info os.FileInfo, err error) error {
+					if err == nil && !info.IsDir() {
+						onDisk += info.Size()
+					}
+					return nil
+				})
+				for _, e := range snap.Order {
+					indexed += e.Item.SizeOnDisk
+				}
+				if onDisk-indexed > snap.Queued {
+					failed(fmt.Sprintf("C17: %d bytes of evicted/replaced files are still on disk but only %d bytes are accounted as queued for deletion", onDisk-indexed, snap.Queued))
+				}
+			}
 			var rs []string
 			for _, q := range reqs {
 				if q.done {
